@@ -78,6 +78,8 @@ pub struct RtScope {
     pub stop_at: Option<(usize, usize)>,  // (request index, deliveries drained so far)
     pub drop_at: Option<(usize, usize)>,
     pub runaway: bool,
+    /// downloads seen when the current poll_chunks run began (a scenario may poll twice)
+    pub run_gets_base: usize,
 }
 
 impl RtScope {
@@ -151,7 +153,7 @@ impl Scope for RtScope {
             // listings made after the first download belong to the polling loop (next-volume
             // discovery); those before it to the initial search.  Classified by phase, never by
             // the request's max-keys value, which is the client's own business.
-            let polling_phase = self.gets_total > 0;
+            let polling_phase = self.gets_total > self.run_gets_base;
             if polling_phase {
                 *self.list_counts.entry(vol).or_insert(0) += 1;
             }
@@ -436,6 +438,59 @@ pub enum Outcome {
     Hung,
 }
 
+/// Run the real poller once on its own thread (so that a hang can be told from progress).
+fn poll_once(
+    site: &str,
+    scope: &Arc<Mutex<RtScope>>,
+    tx: Sender<(ChunkIdentifier, Chunk<'static>)>,
+    stats_tx: Option<Sender<PollStats>>,
+    stop_rx: Receiver<bool>,
+) -> Outcome {
+    let (done_tx, done_rx) = channel::<Outcome>();
+    let site = site.to_string();
+    std::thread::spawn(move || {
+        let r = mon::catch(|| {
+            s3sim::block_on(true, async {
+                let t0 = tokio::time::Instant::now();
+                let r = poll_chunks(&site, tx, stats_tx, stop_rx).await;
+                (r, t0.elapsed().as_millis() as u64)
+            })
+        });
+        let _ = done_tx.send(match r {
+            Ok((r, ms)) => Outcome::Returned(
+                r.map_err(|e| match e {
+                    Error::AWS(AWSError::ExpectedChunkNotFound) => "ExpectedChunkNotFound".to_string(),
+                    Error::AWS(AWSError::PollingAsyncError) => "PollingAsyncError".to_string(),
+                    Error::AWS(AWSError::LatestVolumeNotFound) => "LatestVolumeNotFound".to_string(),
+                    other => format!("other: {other:?}"),
+                }),
+                ms,
+            ),
+            Err(p) => Outcome::Panicked(format!("{}|{}", p.signature(), p.message)),
+        });
+    });
+    // watchdog: hang = no request for 60 s of wall time AND poll_chunks has not returned
+    let mut last_len = 0usize;
+    let mut quiet_s = 0u32;
+    loop {
+        match done_rx.recv_timeout(std::time::Duration::from_secs(1)) {
+            Ok(o) => return o,
+            Err(_) => {
+                let len = scope.lock().map(|s| s.log.len()).unwrap_or(0);
+                if len == last_len {
+                    quiet_s += 1;
+                } else {
+                    quiet_s = 0;
+                    last_len = len;
+                }
+                if quiet_s >= 60 {
+                    return Outcome::Hung;
+                }
+            }
+        }
+    }
+}
+
 pub fn run_scenario(obs: &mut Obs, seed: u64, index: u64) {
     let mut rng = Rng::derive(seed, 18, index);
     let (plan, chunks, old_dirs) = gen_scenario(&mut rng, index);
@@ -463,53 +518,71 @@ pub fn run_scenario(obs: &mut Obs, seed: u64, index: u64) {
         stop_at: if plan.terminal == Terminal::StopBeforeStart { Some((0, 0)) } else { None },
         drop_at: None,
         runaway: false,
+        run_gets_base: 0,
     }));
     sim.register(&plan.site, scope.clone());
 
-    // run the real poller on its own thread so that a hang can be told from progress
-    let (done_tx, done_rx) = channel::<Outcome>();
-    let site = plan.site.clone();
-    std::thread::spawn(move || {
-        let r = mon::catch(|| {
-            s3sim::block_on(true, async {
-                let t0 = tokio::time::Instant::now();
-                let r = poll_chunks(&site, tx, if with_stats { Some(stats_tx) } else { None }, stop_rx).await;
-                (r, t0.elapsed().as_millis() as u64)
-            })
-        });
-        let _ = done_tx.send(match r {
-            Ok((r, ms)) => Outcome::Returned(
-                r.map_err(|e| match e {
-                    Error::AWS(AWSError::ExpectedChunkNotFound) => "ExpectedChunkNotFound".to_string(),
-                    Error::AWS(AWSError::PollingAsyncError) => "PollingAsyncError".to_string(),
-                    Error::AWS(AWSError::LatestVolumeNotFound) => "LatestVolumeNotFound".to_string(),
-                    other => format!("other: {other:?}"),
-                }),
-                ms,
-            ),
-            Err(p) => Outcome::Panicked(format!("{}|{}", p.signature(), p.message)),
-        });
-    });
-    // watchdog: hang = no request for 60 s of wall time AND poll_chunks has not returned
-    let mut last_len = 0usize;
-    let mut quiet_s = 0u32;
-    let outcome = loop {
-        match done_rx.recv_timeout(std::time::Duration::from_secs(1)) {
-            Ok(o) => break o,
-            Err(_) => {
-                let len = scope.lock().map(|s| s.log.len()).unwrap_or(0);
-                if len == last_len {
-                    quiet_s += 1;
-                } else {
-                    quiet_s = 0;
-                    last_len = len;
+    let outcome = poll_once(&plan.site, &scope, tx, if with_stats { Some(stats_tx) } else { None }, stop_rx);
+
+    // ---- polling started a second time on the same site ------------------------------------------------
+    // "every moment at which polling starts": a third of the stopped scenarios start the poller
+    // again once it has returned, with the stop signal already pending.  Whatever the first run
+    // left behind, the second must deliver exactly the newest chunk present *now* and return.
+    let restart = index % 3 == 0
+        && matches!(plan.terminal, Terminal::StopAtGet(_))
+        && matches!(outcome, Outcome::Returned(Ok(()), _));
+    if restart {
+        let expected = scope.lock().ok().and_then(|mut g| {
+            g.drain();
+            let last = g.deliveries.last().map(|d| (d.1.volume().as_number(), d.1.sequence().unwrap_or(0)));
+            // only while still inside the start volume (its metadata chunk is always downloadable)
+            match last {
+                Some((v, _)) if v == g.plan.start_vol && g.visible_in(next_vol(v)).is_empty() => {
+                    let newest = g.visible_in(v).iter().map(|c| c.seq).max();
+                    newest.map(|s| (v, s))
                 }
-                if quiet_s >= 60 {
-                    break Outcome::Hung;
-                }
+                _ => None,
             }
+        });
+        if let Some(expected) = expected {
+            let (tx2, rx2) = channel::<(ChunkIdentifier, Chunk<'static>)>();
+            let (stop_tx2, stop_rx2) = channel::<bool>();
+            let _ = stop_tx2.send(true);
+            let mut first_log_len = 0usize;
+            let first_run: Vec<(usize, ChunkIdentifier, Vec<u8>, bool)> = match scope.lock() {
+                Ok(mut g) => {
+                    first_log_len = g.log.len();
+                    g.rx = Some(rx2);
+                    g.stats_rx = None;
+                    g.run_gets_base = g.gets_total;
+                    std::mem::take(&mut g.deliveries)
+                }
+                Err(_) => Vec::new(),
+            };
+            let outcome2 = poll_once(&plan.site, &scope, tx2, None, stop_rx2);
+            if let Ok(mut g) = scope.lock() {
+                g.drain();
+                let second: Vec<(usize, usize)> = g.deliveries.iter().map(|d| (d.1.volume().as_number(), d.1.sequence().unwrap_or(0))).collect();
+                let payload_ok = g.deliveries.first().map(|d| g.chunks.get(&expected).map(|c| c.bytes == d.2).unwrap_or(false)).unwrap_or(false);
+                let replay = json!({"scenario_index": index, "restart": true, "start_volume": plan.start_vol, "first_run_deliveries": first_run.len(),
+                    "expected_first_delivery_of_second_run": expected, "second_run_deliveries": second, "second_run_outcome": format!("{:?}", outcome2)});
+                match &outcome2 {
+                    Outcome::Returned(Ok(()), _) if second == vec![expected] && payload_ok => obs.count("restarts_deliver_the_newest_chunk_present_then", 1),
+                    Outcome::Returned(Err(e), _) if e.contains("connect") => obs.inconclusive("loopback connect failed during a restarted poll"),
+                    _ => obs.violation(
+                        "polling started again on the same site does not deliver exactly the newest chunk present then",
+                        format!("expected [{:?}] and Ok, observed {:?} and {:?}", expected, second, outcome2),
+                        replay,
+                    ),
+                }
+                // the first run's history is what the offline checker judges
+                g.deliveries = first_run;
+                obs.count("requests_logged_in_restarted_polls", (g.log.len() - first_log_len.min(g.log.len())) as u64);
+                g.log.truncate(first_log_len);
+            }
+            let _ = stop_tx2;
         }
-    };
+    }
     sim.unregister(&plan.site);
     let mut guard = match scope.lock() {
         Ok(g) => g,
